@@ -3,6 +3,7 @@ module github.com/meshplus/bitxhub/verif
 go 1.23
 
 require (
+	github.com/Knetic/govaluate v3.0.1-0.20171022003610-9aa49832a739+incompatible
 	github.com/bytecodealliance/wasmtime-go v0.37.0
 	github.com/ethereum/go-ethereum v1.10.8
 	github.com/meshplus/bitxhub v0.0.0
@@ -14,7 +15,6 @@ require (
 )
 
 require (
-	github.com/Knetic/govaluate v3.0.1-0.20171022003610-9aa49832a739+incompatible // indirect
 	github.com/Rican7/retry v0.1.0 // indirect
 	github.com/VictoriaMetrics/fastcache v1.6.0 // indirect
 	github.com/benbjohnson/clock v1.1.0 // indirect
